@@ -322,13 +322,16 @@ pub fn run_append_random(out: &mut Out, cfg: &Cfg, seed: u64, n: usize, no_tails
             if r.chance(2, 3) { let t = ctx.fresh(); ctx.prior.push(unify_goal(res.clone(), proper_list(vs, Some(t)))); min_len = Some(k); }
             else { ctx.prior.push(unify_goal(res.clone(), proper_list(vs, None))); exact = Some(k); }
         }
-        args.push(res.clone());
+        // ... or the anonymous variable, which unifies with every result
+        let anon_out = min_len.is_none() && exact.is_none() && r.chance(1, 8);
+        args.push(if anon_out { Unifiable::Anonymous } else { res.clone() });
         let c = make_case(&ctx, Some(bip("append", args)));
         let info = match emit_info(out, cfg, &c) { Some(i) => i, None => continue };
         if !cfg.want("C16") { continue; }
         let verdict: Result<(), String> = (|| {
             if info.rec.ends_with("P") { return Err("append panicked".into()); }
             let n_ans = info.answers.iter().filter(|x| x.is_some()).count();
+            if anon_out { return if n_ans == 1 { Ok(()) } else { Err(format!("append with the output argument $_ gave {} answers (expected exactly one: $_ unifies with every list)", n_ans)) }; }
             let fits = match (min_len, exact) { (Some(k), _) => expected.len() >= k, (_, Some(k)) => expected.len() == k, _ => true };
             if !fits { return if n_ans == 0 { Ok(()) } else { Err(format!("append succeeded although its {} elements cannot match the output pattern", expected.len())) }; }
             if n_ans != 1 { return Err(format!("append gave {} answers (expected exactly one{})", n_ans, if min_len.is_some() || exact.is_some() { "; the output argument is a list pattern that the result matches" } else { "" })); }
